@@ -11,10 +11,12 @@ EOLS = ['', '\n', '\r\n', '\r', '\n\n']
 
 def reencode(text, seg_t, ele_t, sub_t, eol='', rep_t=None):
     """Re-encode `text` (every interchange in it must use the delimiters of the first ISA)."""
-    (s0, e0, c0), pieces = ref_token.tokenize(text)
+    (s0, e0, c0), pieces = ref_token.tokenize(text, keep_empty=True)
     out = []
     for p in pieces:
         if p.blank_only:
+            # an empty or blank-only segment stays one: terminator right after terminator (+ line break), blanks kept
+            out.append((p.lead if not p.empty else '') + seg_t)
             continue
         if p.sid == 'ISA':
             vals = [c[0] for c in p.elements]
